@@ -7,7 +7,7 @@ import subprocess
 import sys
 import time
 
-ROOT = "/verif"
+ROOT = os.environ.get("VF_ROOT", "/verif")
 PY = "/verif/.venv/bin/python"
 
 
@@ -65,7 +65,7 @@ class Run:
 
     def run_replay(self, path, timeout=300):
         """exit 1 + 'REPRODUCED' => the violation reproduces on the real code."""
-        env = dict(os.environ, PYTHONPATH="/verif:/repo", TZ="UTC", PYTHONDONTWRITEBYTECODE="1")
+        env = dict(os.environ, PYTHONPATH=f"{ROOT}:/repo", TZ="UTC", PYTHONDONTWRITEBYTECODE="1")
         try:
             r = subprocess.run([PY, path], capture_output=True, text=True, timeout=timeout, env=env)
         except subprocess.TimeoutExpired:
